@@ -118,10 +118,11 @@ def literal_order_only(f1, f2) -> bool:
         out = []
         for s, p, o in form:
             if o.startswith('"'):
-                o = re.sub(r"\[([^\[\]]*)\]", lambda m: "[" + ", ".join(sorted(_split_top(m.group(1)))) + "]", o)
                 o = re.sub("τ#?[0-9]+", "τ", o)
+                o = re.sub(r"\[([^\[\]]*)\]", lambda m: "[" + ", ".join(sorted(_split_top(m.group(1)))) + "]", o)
             out.append([s, p, o])
-        return sorted(out)
+        # blank nodes were named with the literals in view: name them again
+        return I.canonical(sorted(out))
     return f1 != f2 and norm(f1) == norm(f2)
 
 
@@ -360,8 +361,9 @@ def dec_enc(xs):
 
 def make_jobs(rng, tier, replay_payload=None):
     if replay_payload is not None:
-        return [{"spec": replay_payload["spec"], "cases": [replay_payload["case"]], "fixed": False}]
-    nl, nv, ne, nw = (14, 2, 7, 5) if tier == "quick" else (110, 2, 9, 7)
+        cases = replay_payload.get("cases") or [replay_payload["case"]]
+        return [{"spec": replay_payload["spec"], "cases": cases, "fixed": False}]
+    nl, nv, ne, nw = (28, 2, 7, 5) if tier == "quick" else (120, 2, 9, 7)
     jobs = []
     for lang, cases in G.fixed_languages():
         jobs.append({"spec": lang.spec, "cases": cases, "fixed": True})
@@ -388,7 +390,7 @@ def main(tier: str, seed: int, replay: str | None = None) -> int:
         ev = C.EVID / f"{PID}.json"
         old_evidence = ev.read_text() if ev.exists() else None
         payload = json.loads(Path(replay).read_text())
-        if "spec" not in payload or "case" not in payload:
+        if "spec" not in payload or ("case" not in payload and "cases" not in payload):
             print("replay file has no language/case (proof-stage or correspondence record)")
             payload = None
     jobs = make_jobs(rng, tier, payload) if (payload or not replay) else []
@@ -470,7 +472,9 @@ def main(tier: str, seed: int, replay: str | None = None) -> int:
         canons = {json.dumps(r["canon"]) for _, r in runs} | {json.dumps(r["canon_again"]) for _, r in runs}
         n_eval += 1
         if len(canons) != 1:
-            failing.append((0, f"{pre}canon_{li}", {"kind": "oracle", "spec": j["spec"], "case": {"kind": "canon"},
+            failing.append((0, f"{pre}canon_{li}", {"kind": "oracle", "spec": j["spec"], "cases": j["cases"],
+                "how": "build the language, generate the graphs of 'cases' from it (any order) and compare "
+                       "sorted(t.text() for t in language.canon) before and after, and between interpreters",
                 "what": "Language.canon differs between interpreters or grows when graphs are generated",
                 "canon_sets": [json.loads(c) for c in sorted(canons)][:3]}, None))
         for ci, case in enumerate(j["cases"]):
@@ -555,14 +559,13 @@ def main(tier: str, seed: int, replay: str | None = None) -> int:
     if not replay:
         blocks, meta = [], []
         cap = 60 if tier == "quick" else 90
-        want = 70 if tier == "quick" else 500
+        want = 110 if tier == "quick" else 700
         crng = random.Random(seed + 1)
         cand = [(li, ci) for li, j in enumerate(jobs) for ci, c in enumerate(j["cases"])
                 if c["kind"] == "expr" and li in built]
         crng.shuffle(cand)
-        for li, ci in cand:
-            if len(blocks) >= want:
-                break
+        pool = []
+        for li, ci in cand[:4 * want]:
             case = jobs[li]["cases"][ci]
             dep = crng.random() < 0.75
             try:
@@ -573,11 +576,20 @@ def main(tier: str, seed: int, replay: str | None = None) -> int:
             if size > cap:
                 corr["expr_too_large_for_model_evaluation"] += 1
                 continue
+            nfn = sum(t.count(" true)") for t in terms)          # function-typed arguments
+            pool.append((nfn, li, ci, dep, terms, form, size, opnames))
+        # half of the sample: the cases with most function-typed arguments (where the wiring
+        # loops visit several objects and the schedules really differ), the rest as drawn
+        rich = [t for t in pool if jobs[t[1]]["fixed"]]
+        rich += sorted([t for t in pool if t not in rich], key=lambda t: -t[0])[:want // 2]
+        rest = [t for t in pool if t not in rich][:want - len(rich)]
+        for nfn, li, ci, dep, terms, form, size, opnames in rich + rest:
             text = (f"Eval vm_compute in run3 {'true' if dep else 'false'} "
                     f"{C.coq_list(terms)}.\n")
             blocks.append((text, 1))
             meta.append(("expr", li, ci, dep, form, opnames, size))
-        ncanon = 25 if tier == "quick" else 250
+            corr["expr_function_typed_arguments"] += nfn
+        ncanon = 40 if tier == "quick" else 400
         for _ in range(ncanon):
             cl = gen_canon_lang(crng)
             try:
@@ -587,7 +599,22 @@ def main(tier: str, seed: int, replay: str | None = None) -> int:
                 continue
             blocks.append((text, 1))
             meta.append(("canon", cl, got))
-        vals = C.coq_eval_blocks(f"{PID}_{tier}", HDR, blocks, nfiles=4) if blocks else []
+        # (a tag of its own: several checks of this property may run at the same time,
+        # e.g. against different worktrees)
+        tag = f"{PID}_{tier}_{os.getpid()}"
+        try:
+            vals = C.coq_eval_blocks(tag, HDR, blocks, nfiles=4) if blocks else []
+        finally:
+            for f in (C.BUILD / "cases").glob(f"{tag}_*"):
+                try:
+                    f.unlink()
+                except OSError:
+                    pass
+            for f in (C.BUILD / "cases").glob(f".{tag}_*"):
+                try:
+                    f.unlink()
+                except OSError:
+                    pass
         for m, v in zip(meta, vals):
             v = v[0]
             if m[0] == "expr":
@@ -630,10 +657,12 @@ def main(tier: str, seed: int, replay: str | None = None) -> int:
                     continue
                 corr["canon_lists_differ_between_schedules"] += v[0] != v[1]
                 if sets[0] != got or sets[1] != got:
+                    again = canon_impl(cl)[0]
                     disagree.append((f"disagree_canon_{corr['canon_cases']}", {"kind": "correspondence",
                         "what": "K_C19b: Language.canon differs from expand_canon_s under some discipline",
                         "language": cl, "impl_only": sorted(map(str, got - sets[0]))[:5],
                         "model_only": sorted(map(str, sets[0] - got))[:5],
+                        "impl_canon": sorted(map(str, got)), "impl_canon_recomputed": sorted(map(str, again)),
                         "disciplines_agree": sets[0] == sets[1]}))
         for name, pl in disagree[:4]:
             rep.violation(name, pl, has_input=False)
